@@ -87,6 +87,7 @@ func c06NewRig() (*Rig, error) {
 	if err != nil {
 		return nil, err
 	}
+	_ = r.Settings.SetEngine(settings.EngineV2)
 	c06Register(r)
 	return r, nil
 }
@@ -102,6 +103,7 @@ func c06Restart(r *Rig) (*Rig, error) {
 	z.StartHydra()
 	gw := &gateway.Gateway{SettingsInterface: s, ZeusInterface: z, DefaultCloseAfterIdle: 3600, DefaultWriteInterval: 1, DefaultFileSize: 8192}
 	n := &Rig{Root: r.Root, Settings: s, Zeus: z, GW: gw}
+	_ = s.SetEngine(settings.EngineV2)
 	c06Register(n)
 	return n, nil
 }
@@ -815,6 +817,9 @@ func (s *c06State) ensureRig() error {
 }
 
 func c06Run(in *bufio.Scanner, w *bufio.Writer) {
+	// the repository prints diagnostics with fmt.Print*: keep them out of the reply stream
+	// (w already holds the real stdout)
+	os.Stdout = os.Stderr
 	s := &c06State{server: map[int64]bool{}, runTag: strconv.FormatInt(time.Now().UnixNano()%1e9, 36)}
 	var roots []string
 	defer func() {
@@ -865,12 +870,48 @@ func c06Run(in *bufio.Scanner, w *bufio.Writer) {
 			time.Sleep(time.Duration(ms) * time.Millisecond)
 			fmt.Fprintln(w, "ok")
 			continue
+		case "close":
+			// what GracefulStop does to each live swamp (flush + close), without stopping the server
+			func() {
+				h := s.rig.Zeus.GetHydra()
+				live := false
+				for _, n := range h.ListActiveSwamps() {
+					if n == s.swamp {
+						live = true
+					}
+				}
+				if !live {
+					fmt.Fprintln(w, "ok")
+					return
+				}
+				done := make(chan struct{})
+				go func() {
+					defer close(done)
+					if sw, err := h.SummonSwamp(context.Background(), 1, name.Load(s.swamp)); err == nil {
+						sw.Close()
+					}
+				}()
+				select {
+				case <-done:
+					fmt.Fprintln(w, "ok")
+				case <-time.After(c06OpTimeout):
+					fmt.Fprintln(w, "hang")
+					s.dead, s.rigDead = true, true
+				}
+			}()
+			continue
 		case "closeidle":
 			// idle eviction through the real close listener (1 s idle timeout + 1 s gap)
 			deadline := time.Now().Add(8 * time.Second)
 			closed := false
 			for time.Now().Before(deadline) {
-				if s.rig.Zeus.GetHydra().CountActiveSwamps() == 0 {
+				live := false
+				for _, n := range s.rig.Zeus.GetHydra().ListActiveSwamps() {
+					if n == s.swamp {
+						live = true
+					}
+				}
+				if !live {
 					closed = true
 					break
 				}
